@@ -1201,16 +1201,10 @@ func (e *fqEnv) observe() (fqObs, error) {
 		mark(o.Cache, id, f, false)
 		return true
 	})
-	for b := 0; b <= e.btip; b++ {
-		f, err := e.w.fs.FetchFilter(&e.u.hashes[b], filterdb.RegularFilter)
-		switch {
-		case err == filterdb.ErrFilterNotFound:
-		case err != nil:
-			o.Db[b] = vqG
-		default:
-			mark(o.Db, b, f, false)
-		}
-	}
+	// The database CONTENTS are read straight from the bucket (inside the
+	// read transaction) so that the projection does not depend on the read
+	// path under test; FilterStore.FetchFilter itself is judged where the
+	// client uses it (DbLookup -> Return).
 	err := walletdb.View(e.w.fdb, func(tx walletdb.ReadTx) error {
 		top := tx.ReadBucket(vqFilterBucket)
 		if top == nil {
@@ -1229,8 +1223,14 @@ func (e *fqEnv) observe() (fqObs, error) {
 					return nil
 				}
 				copy(h[:], k)
-				if e.u.idOf(h, e.btip) < 0 {
+				id := e.u.idOf(h, e.btip)
+				switch {
+				case id < 0:
 					o.Dx++
+				case bytes.Equal(v, e.u.fbytes[id]):
+					o.Db[id] = 1
+				default:
+					o.Db[id] = vqG
 				}
 				return nil
 			})
